@@ -163,6 +163,10 @@ PROPS["C06"] = dict(
         dict(layer="native", monitor="c06", shards_quick=4, shards_thorough=16),
         dict(layer="miri", monitor="c06", shards_quick=8, shards_thorough=16),
         dict(layer="asan", monitor="c06", shards_thorough=8, tier="thorough"),
+        # tokio / smol transports over real Unix sockets: the peer is a blocking stream on its own thread that reads the
+        # calls and writes the scripted replies in pieces (or all of them before the first item is asked for)
+        dict(layer="native", package="rt", monitor="c06", tag="real", shards_quick=8, shards_thorough=16,
+             budget_quick=16_000, budget_thorough=400_000, timeout_quick=900),
     ],
 )
 
@@ -193,6 +197,12 @@ PROPS["C11"] = dict(
         dict(layer="miri", monitor="c11", tag="separate", extra=["--group", "separate"], shards_quick=1, shards_thorough=2, expect_dies=True),
         dict(layer="asan", monitor="c11", tag="same", extra=["--group", "same"], shards_quick=2, shards_thorough=8),
         dict(layer="asan", monitor="c11", tag="separate", extra=["--group", "separate"], shards_quick=1, shards_thorough=4, expect_dies=True),
+        # tokio / smol transports over real Unix sockets: the peer has written the whole burst before the first item is
+        # asked for (ordered by joining on the writer, not by timing); items are held and re-read
+        dict(layer="native", package="rt", monitor="c11", tag="real", shards_quick=4, shards_thorough=16,
+             budget_quick=8000, budget_thorough=200_000, timeout_quick=900),
+        dict(layer="asan", package="rt", monitor="c11", tag="real", shards_quick=2, shards_thorough=8,
+             budget_quick=1600, budget_thorough=16_000, timeout_quick=900),
     ],
 )
 
